@@ -129,6 +129,25 @@ Theorem C14_file_roundtrip_promoted : forall W m d,
 Proof. exact file_roundtrip_promoted. Qed.
 Print Assumptions C14_file_roundtrip_promoted.
 
+Definition C14_demo_world : world := {| w_ents := [(32%N, KEntity); (48%N, KEntity); (64%N, KPropGroup "Multi-element")]; w_desc := [] |}.
+Definition C14_demo_data : pv :=
+  PDict [ (PStr "title", PStr "T"); (PStr "geoh5", PWs "dir/w.geoh5"); (PStr "levels", PList [PFloat FNInf; PInt 7]);
+          (PStr "obj", PDict [(PStr "label", PStr "Object"); (PStr "value", PEnt KEntity 32%N); (PStr "enabled", PBool true)]);
+          (PStr "grp", PDict [(PStr "label", PStr "Group"); (PStr "value", PEnt (KPropGroup "Multi-element") 64%N);
+                              (PStr "property", PList [PEnt KEntity 48%N; PNone])]) ].
+(* the premises of C14_file_roundtrip_promoted are met by a dictionary with entities, a property group and a list of entities;
+   the conclusion then follows from the theorem (it is not re-checked by computation) *)
+Example C14_file_roundtrip_promoted_nonvacuous :
+  tshape false (fun a => atom_safe a && promotable C14_demo_world a) C14_demo_data = true
+  /\ depth C14_demo_data < 4 /\ forms_pass true (text_tree C14_demo_data) = true
+  /\ (j <- file_trip 4 C14_demo_data ;; promote 4 C14_demo_world false j) = Ok C14_demo_data.
+Proof.
+  assert (H1 : tshape false (fun a => atom_safe a && promotable C14_demo_world a) C14_demo_data = true) by (vm_compute; reflexivity).
+  assert (H2 : depth C14_demo_data < 4) by (unfold C14_demo_data; simpl; lia).
+  assert (H3 : forms_pass true (text_tree C14_demo_data) = true) by (vm_compute; reflexivity).
+  split; [exact H1 | split; [exact H2 | split; [exact H3 | exact (C14_file_roundtrip_promoted C14_demo_world 4 _ H1 H2 H3)]]].
+Qed.
+
 (* ---- flatten (generated) and the enabled states ---- *)
 (* flatten reports, entry by entry: non-dictionary parameters as they are, a form by flat_value = None when it is disabled,
    else its value (or property) member; dictionaries that are not forms are not reported *)
